@@ -35,6 +35,7 @@ import datetime as _datetime
 import errno
 import json
 import os
+import re
 import shutil
 import tempfile
 import math
@@ -964,7 +965,12 @@ def output_case(ctx, case, workdir):
         ctx.case(case, nontrivial=len(ups) >= 2, tags=["output-history:updates=%d" % len(ups)] + sorted(
             {"output:path-has-" + nm for d in descs for nm, f in (("percent", "%" in d), ("equals", "=" in d),
                                                                    ("nonascii", any(ord(c) > 126 for c in d)),
-                                                                   ("space", " " in d)) if f}))
+                                                                   ("space", " " in d),
+                                                                   ("inline-comment-mark", bool(INLINE_MARK.search(d))),
+                                                                   ("comment-char", "#" in d or ";" in d),
+                                                                   ("bracket-or-colon", any(c in d for c in "[]:"))) if f})
+                 + (["output:free-text-description"] if any(v.get("description") for u in ups for v in u.values()) else []))
+    items = []
     for i, upd in enumerate(ups):
         last = i == len(ups) - 1
         apply_output_update(agent, upd)
@@ -1000,6 +1006,8 @@ def output_case(ctx, case, workdir):
             got = loaded.get(k)
             exp_vals = {"filepath": s["lastLocation"], "filename": os.path.split(s["lastLocation"])[1],
                         "version": s["version"], "final": s["final"], "production": s["production"]}
+            if isinstance(s.get("description"), str) and isinstance(s.get("type"), str):
+                exp_vals.update({"description": s["description"], "type": s["type"]})
             if got is None:
                 report(ctx, "output-value-not-read-back", case, dict(where, key=k, field="<entry>", expected=k, loaded=None))
                 continue
@@ -1007,6 +1015,163 @@ def output_case(ctx, case, workdir):
                 if not texact(got.get(f), e):
                     report(ctx, "output-value-not-read-back", case, dict(where, key=k, field=f, expected=e, loaded=got.get(f)))
                     break
+        items.append((case, where, listing_fields(agent), load_output_raw(js)))
+    if _LDEFER[0] is not None:
+        _LDEFER[0].extend(items)
+    else:
+        _listing_compare(ctx, items)
+
+
+LISTING_KEYS = ["filename", "filepath", "description", "type", "creationTime", "version", "production", "final"]
+
+
+def listing_fields(agent):
+    """the (option, text) pairs updateLogs writes per produced key-output, formatted as its "%s" / "%d" do"""
+    out = {}
+    for k, v in agent.dataReferences.items():
+        s = v["status"]
+        if s["version"] == 0:
+            continue
+        vals = dict(s, filename=os.path.split(s["lastLocation"])[1], filepath=s["lastLocation"])
+        out[k] = [[key, ("%d" % vals[key]) if key == "version" else "%s" % (vals[key],)] for key in LISTING_KEYS]
+    return out
+
+
+def load_output_raw(path):
+    """output.json as it is (sections -> option -> text); None when it does not load"""
+    try:
+        with _orig_open(path) as fh:
+            doc = json.load(fh)
+        return doc if isinstance(doc, dict) else None
+    except Exception:  # noqa
+        return None
+
+
+_LDEFER = [None]      # when a list: the model comparisons of key-output listings are collected and answered in one batch
+
+
+def _listing_compare(ctx, items):
+    """St4sd.Listing (the dosini reader without inline comment prefixes, theorem listing_line_roundtrip) against the
+    output.json the real updateLogs derived from the output.txt it wrote"""
+    flat = [(case, where, k, fields, (raw or {}).get(k)) for case, where, allf, raw in items for k, fields in sorted(allf.items())
+            if all("\n" not in v and "\r" not in v for _, v in fields)]
+    if not flat:
+        return
+    mo = ctx.model([{"op": "listing", "inl": [], "fields": [[cp(a), cp(b)] for a, b in fields]} for _, _, _, fields, _ in flat])
+    if mo is None:
+        return
+    for (case, where, k, fields, impl), m in zip(flat, mo):
+        model = None
+        if isinstance(m, dict) and "read" in m:
+            model = {}
+            for r in m["read"]:
+                if r is None:
+                    model = None
+                    break
+                model[uncp(r[0])] = uncp(r[1])
+        ctx.compare("listing-section-read-back", dict(case, _where=dict(where, key=k)), model,
+                    impl if impl is None or isinstance(impl, dict) else "<not a section>")
+
+
+STAGE_FLOWIR = """
+components:
+- name: c0
+  command:
+    executable: echo
+    arguments: hi
+output:
+%(outputs)s
+"""
+
+STAGE_TOKENS = [" #", " ;", " # ", " ;", "#", ";", " ", "-", "(", ")", "é", " = ", "=", "%", "  #", "\t;"]
+
+
+def gen_stage_name(rng):
+    parts = [rng.choice(NAME_WORDS)]
+    for _ in range(rng.randint(1, 2)):
+        parts += [rng.choice(STAGE_TOKENS), rng.choice(NAME_WORDS)]
+    return "".join(parts) + rng.choice([".csv", ".txt", ""])
+
+
+def gen_output_stage(rng):
+    names = {}
+    for k in ("Summary", "Notes", "plain"):
+        sub = (gen_stage_name(rng) + "/") if rng.random() < 0.25 else ""
+        names[k] = sub + (gen_stage_name(rng) if k != "plain" else "plain.csv")
+    return dict(kind="output-stage", names=names, rounds=rng.randint(1, 3))
+
+
+def output_stage_case(ctx, case, workdir):
+    """case: {"kind":"output-stage","names":{key-output: path below the working directory of stage0.c0},"rounds":n}: a real
+    experiment whose key-outputs are the files with those names (which exist); OutputAgent.process_stage(0) n times (the
+    path elaunch takes after every stage), then the listing is read back with Experiment._parse_outputs_file"""
+    E = env()
+    names = case["names"]
+    marks = sorted({nm for d in names.values() for nm, f in (("inline-comment-mark", bool(INLINE_MARK.search(d))),
+                                                              ("comment-char", "#" in d or ";" in d)) if f})
+    d = tempfile.mkdtemp(prefix="stage-", dir=workdir)
+    cwd = os.getcwd()
+    try:
+        outputs = "".join("  %s:\n    data-in: %s\n" % (k, json.dumps("stage0.c0/%s:copy" % v, ensure_ascii=False))
+                          for k, v in sorted(names.items()))
+        try:
+            exp = E["TU"].experiment_from_flowir(STAGE_FLOWIR % {"outputs": outputs}, d, checkExecutables=False)
+            agent = E["O"].OutputAgent(exp)
+            refs = {k: agent.dataReferences[k]["references"][0].location(exp.experimentGraph) for k in names}
+        except Exception as exc:  # noqa
+            # the front end does not accept this reference: nothing is ever written, no case
+            ctx.case(case, nontrivial=False, tags=["output-stage:reference-rejected:" + type(exc).__name__])
+            return
+        finally:
+            os.chdir(cwd)
+        ctx.case(case, nontrivial=bool(marks) and case["rounds"] >= 2,
+                 tags=["output-stage:rounds=%d" % case["rounds"]] + ["output-stage:name-has-" + m for m in marks])
+        inst = exp.instanceDirectory.location
+        outdir = os.path.realpath(exp.instanceDirectory.outputDir)
+        if not outdir.startswith(os.path.realpath(workdir) + os.sep):
+            _WORK.setdefault("shadow", []).append(os.path.dirname(outdir))
+        js = os.path.join(outdir, "output.json")
+        for k, loc in refs.items():
+            os.makedirs(os.path.dirname(loc), exist_ok=True)
+            with _orig_open(loc, "w") as fh:
+                fh.write("a,b\n1,2\n")
+        items = []
+        for i in range(case["rounds"]):
+            where = {"after_update": i + 1}
+            try:
+                agent.process_stage(0)
+            except Exception as exc:  # noqa
+                report(ctx, "output-update-raises", case, dict(where, error=type(exc).__name__ + ": " + str(exc)[:200]))
+                continue
+            try:
+                loaded = load_output_json(js)
+            except Exception as exc:  # noqa
+                report(ctx, "output-json-does-not-load", case, dict(where, error=type(exc).__name__ + ": " + str(exc)[:200]))
+                continue
+            for k, loc in sorted(refs.items()):
+                st = agent.dataReferences[k]["status"]
+                written = os.path.relpath(loc, inst)
+                if st["version"] != i + 1 or st["lastLocation"] != written:
+                    report(ctx, "output-stage-not-recorded", case, dict(where, key=k, status={a: repr(b) for a, b in st.items()}))
+                    continue
+                got = loaded.get(k)
+                exp_vals = {"filepath": written, "filename": os.path.split(written)[1], "version": i + 1, "final": st["final"]}
+                if got is None:
+                    report(ctx, "output-value-not-read-back", case, dict(where, key=k, field="<entry>", expected=k, loaded=None))
+                    continue
+                for f, e in exp_vals.items():
+                    if not texact(got.get(f), e):
+                        report(ctx, "output-value-not-read-back", case,
+                               dict(where, key=k, field=f, expected=e, loaded=got.get(f)))
+                        break
+            items.append((case, where, listing_fields(agent), load_output_raw(js)))
+        if _LDEFER[0] is not None:
+            _LDEFER[0].extend(items)
+        else:
+            _listing_compare(ctx, items)
+    finally:
+        os.chdir(cwd)
+        shutil.rmtree(d, ignore_errors=True)
 
 
 class _FakeStatusDB:
@@ -2152,8 +2317,35 @@ STATUS_CONC_CORPUS = [
 
 PATH_CHARS = ["a", "b", "x", "1", "_", "-", ".", " ", "=", "%", "é", "€", "#", ";", "(", ")", "s", "%(version)s", "%%"]
 
+# what a dosini reader may treat as syntax inside a value: inline comment marks (white space + '#' / ';'), comment
+# characters without white space, delimiters, section brackets, interpolation, quotes, continuation-like blanks
+DOSINI_TOKENS = [" #", " ;", " # ", " ; ", "\t#", "\t;", "\xa0#", "\u3000;", "#", ";", " //", " = ", "=", ":", " : ", "[", "]",
+                 "[s]", "%(filename)s", "%", "%%", "  ", "'", '"', "\\", " -- ", " ! ", "!", "$", "${x}", "REM "]
+NAME_WORDS = ["summary", "notes", "draft", "1", "2", "v2", "out", "energies", "é", "final", "x"]
+INLINE_MARK = re.compile(r"\s[#;]")
+
+
+def gen_dosini_text(rng, nmax=3):
+    """words joined by dosini-syntax tokens, no white space at the two ends, one line"""
+    parts = [rng.choice(NAME_WORDS)]
+    for _ in range(rng.randint(1, nmax)):
+        parts.append(rng.choice(DOSINI_TOKENS[:10]) if rng.random() < 0.5 else rng.choice(DOSINI_TOKENS))
+        parts.append(rng.choice(NAME_WORDS))
+    if rng.random() < 0.15:
+        parts.pop()                # ends with the token
+    if rng.random() < 0.1:
+        parts.pop(0)               # starts with the token
+    return "".join(parts).strip() or "f"
+
 
 def gen_relpath(rng):
+    if rng.random() < 0.4:
+        # names (of the file or of a directory on its path) that contain dosini syntax
+        name = gen_dosini_text(rng).replace("/", "_")
+        mid = ""
+        if rng.random() < 0.3:
+            mid = gen_dosini_text(rng, 1).replace("/", "_") + "/"
+        return "stages/stage0/c0/" + mid + name + rng.choice([".txt", ".csv", ""])
     name = "".join(rng.choice(PATH_CHARS) for _ in range(rng.randint(1, 6))).strip() or "f"
     if rng.random() < 0.7:
         # most names are ordinary: the '%' class is a small share
@@ -2174,6 +2366,10 @@ def gen_output_case(rng, atomic, params):
                 u[k] = {"version": ver[k], "lastLocation": gen_relpath(rng) if not atomic else "stages/stage0/c0/out%d.txt" % ver[k],
                         "creationTime": rng.randint(10 ** 9, 2 * 10 ** 9) + rng.randint(0, 999) / 1000.0,
                         "final": rng.choice(["yes", "no"]), "lastStage": 0}
+                if not atomic and rng.random() < 0.3:
+                    # the free-text fields of a key-output (FlowIR output.<name>.description / type)
+                    u[k]["description"] = rng.choice(["", gen_dosini_text(rng, 4), " ".join(rng.choice(WORDS).split())])
+                    u[k]["type"] = rng.choice(["", "csv", gen_dosini_text(rng, 1)])
         if not u:
             ver["greeting"] += 1
             u["greeting"] = {"version": ver["greeting"], "lastLocation": "stages/stage0/c0/out.txt", "creationTime": 1.5e9,
@@ -2339,6 +2535,8 @@ def dispatch(ctx, case):
             shutil.rmtree(d, ignore_errors=True)
     elif k == "output":
         output_case(ctx, case, workdir())
+    elif k == "output-stage":
+        output_stage_case(ctx, case, workdir())
     elif k == "details":
         details_case(ctx, case, workdir())
     elif k == "instance":
@@ -2365,6 +2563,23 @@ def dispatch(ctx, case):
         raise common.InfraError("unknown C14 case kind %r" % k)
 
 
+def _oup(path, version=1, **kw):
+    return dict({"version": version, "lastLocation": path, "creationTime": 1.5e9 + version, "final": "no", "lastStage": 0}, **kw)
+
+
+# key-output listings whose values contain what a dosini reader may take for syntax
+OUTPUT_CORPUS = [
+    {"kind": "output", "atomic": False, "ncomp": 2, "var": "hello", "updates": [
+        {"greeting": _oup("stages/stage0/c0/summary #1.csv"), "Other": _oup("stages/stage0/c0/notes ;draft.txt")},
+        {"greeting": _oup("stages/stage0/c0/run #2/out.txt", 2), "Other": _oup("stages/stage0/c0/a;b#c.txt", 2)}]},
+    {"kind": "output", "atomic": False, "ncomp": 2, "var": "hello", "updates": [
+        {"greeting": _oup("stages/stage0/c0/[x] = y : z.txt", description="energies ; in eV # per atom", type="csv ;v2"),
+         "Other": _oup("stages/stage0/c0/100%(filename)s %% done.txt", description="", type="")}]},
+    {"kind": "output-stage", "names": {"Summary": "summary #1.csv", "Notes": "drafts ;old/notes ;draft.txt", "plain": "plain.csv"},
+     "rounds": 2},
+]
+
+
 CORPUS_HISTORIES = [
     {"kind": "status-history", "stages": ["stage0"], "rounds": [[["setErrorDescription", "\\"]], []]},
     {"kind": "status-history", "stages": ["stage0"], "rounds": [[["setErrorDescription", "a\nb"]], [], []]},
@@ -2386,8 +2601,13 @@ def _setup(ctx):
                 "(b) one traced update of status.txt / output.txt+output.json / status_details.json / flowir_instance.yaml / "
                 "manifest.yaml on a real Experiment instance: non-trivial = trace with >= 3 crash points; every crash point "
                 "snapshotted (flushed and buffered), OSError injected at the sampled (quick) or all (thorough, <= 400) "
-                "boundaries. (c) key-output listings: 1..6 updateLogs() with generated relative paths, reloaded with "
-                "Experiment._parse_outputs_file. (d) strings through the unicode_escape codec. (e) several writers of one file: "
+                "boundaries. (c) key-output listings: 1..6 updateLogs() with generated relative paths - 40% of them built "
+                "from words joined by dosini syntax (white space + '#' / ';' inline comment marks, bare '#' ';', '=', ':', "
+                "brackets, '%(x)s', quotes, backslash) in the file name or a directory on the path - and, in 30% of the updates, "
+                "free-text description / type fields of the same kind, reloaded with Experiment._parse_outputs_file (filepath, "
+                "filename, version, final, production, description, type must be the values written) and compared section by "
+                "section with St4sd.Listing.readLine (no inline prefixes) on the written lines; plus real experiments whose "
+                "key-outputs are existing files with such names driven through OutputAgent.process_stage 1..3 times. (d) strings through the unicode_escape codec. (e) several writers of one file: "
                 "2-3 real Status.update() calls (each preceded by its own setter calls, on one shared Status object or one "
                 "object per writer), 2 OutputAgent.updateLogs(), 2 StatusMonitor.try_generate_status_details(), 2 "
                 "store_unreplicated_flowir_to_disk() storing different documents, each writer in its own thread under a "
@@ -2416,7 +2636,7 @@ def _setup(ctx):
         "os.rename/os.replace atomically replace the target; open(...,'w') truncates; a flushed write reaches the file (POSIX)",
         "crash = process death at a Python-level file-operation boundary; the flushed run makes every write a boundary, the "
         "buffered run shows the boundaries CPython's io buffering really produces; power-loss reordering/fsync durability is not modelled",
-        "free-form characters only in error-description (the field the code escapes) and in key-output paths; the other status "
+        "free-form characters only in error-description (the field the code escapes), in key-output paths and in the one-line description / type fields of the key-output listing; the other status "
         "fields take values from their real domains (state names, numbers, stage names, time stamps)",
         "values are Unicode scalar values (no lone surrogates)",
         "StatusDB is a stub returning generated JSON documents; key-output statuses are set as OutputAgent.process_stage sets them",
@@ -2465,8 +2685,17 @@ def run(ctx):
             for _ in range(4 if quick else 20):
                 dispatch(ctx, gen_details_case(rng, p))
         # (c) key-output listing fidelity
-        for _ in range(25 if quick else 250):
-            dispatch(ctx, gen_output_case(rng, False, params[0]))
+        _LDEFER[0] = []
+        try:
+            for c in OUTPUT_CORPUS:
+                dispatch(ctx, copy.deepcopy(c))
+            for _ in range(40 if quick else 400):
+                dispatch(ctx, gen_output_case(rng, False, params[0]))
+            for _ in range(3 if quick else 30):
+                dispatch(ctx, gen_output_stage(rng))
+            _listing_compare(ctx, _LDEFER[0])
+        finally:
+            _LDEFER[0] = None
         for p in params:
             for _ in range(3 if quick else 12):
                 dispatch(ctx, gen_output_case(rng, True, p))
